@@ -46,6 +46,8 @@ func buildCluster(rng *RNG) *simCluster {
 	c.addRegion(nil, []byte("t2"), nil, nil, pick())
 	c.addRegion([]byte("ns"), []byte("t"), nil, []byte("m"), pick())
 	c.addRegion([]byte("ns"), []byte("t"), []byte("m"), nil, pick())
+	// same namespace, qualifier "t" is a proper suffix of "xt"
+	c.addRegion([]byte("ns"), []byte("xt"), nil, nil, pick())
 	return c
 }
 
@@ -109,7 +111,7 @@ func seqScenario(rng *RNG, model string) string {
 	defer sc.cl.Close()
 	var steps []string
 	nSteps := 6 + rng.Intn(14)
-	tables := []string{"t", "t", "t", "t2", "ns:t"}
+	tables := []string{"t", "t", "t", "t2", "ns:t", "ns:xt"}
 	mark := func() int { c.mu.Lock(); defer c.mu.Unlock(); return len(c.serves) }
 	for i := 0; i < nSteps; i++ {
 		if rng.Intn(3) == 0 {
@@ -262,6 +264,54 @@ func seqScenario(rng *RNG, model string) string {
 	}
 	steps = append(steps, fmt.Sprintf("F:%d", unavailable))
 	return model + " seq " + strings.Join(steps, " ")
+}
+
+// firstUseScenario (C20): n regions, all on one regionserver, are used for the first time by n
+// goroutines at once (and the connection factory takes a moment, as a real dial set-up does);
+// then more regions of the same server are discovered. The server must have been dialled once.
+func firstUseScenario(rng *RNG) string {
+	gohbase.VerifSetSleepOverride(fastBackoff)
+	c := newSimCluster()
+	c.slowNew = time.Duration(200+rng.Intn(1500)) * time.Microsecond
+	n := 2 + rng.Intn(8)
+	keys := []string{"", "b", "d", "f", "h", "j", "l", "n", "p", "r", "t"}
+	for i := 0; i < n+2; i++ {
+		var stop []byte
+		if i+1 < n+2 {
+			stop = []byte(keys[i+1])
+		}
+		c.addRegion(nil, []byte("t"), []byte(keys[i]), stop, "rs1:1")
+	}
+	sc := newSimClient(c)
+	defer sc.cl.Close()
+	// meta first, so that the n first uses really start together
+	g0, _ := hrpc.NewGet(context.Background(), []byte("nope"), []byte("x")) // touches hbase:meta only
+	sc.cl.Get(g0)
+	start := make(chan struct{})
+	var wg sync.WaitGroup
+	for i := 0; i < n; i++ {
+		wg.Add(1)
+		go func(i int) {
+			defer wg.Done()
+			<-start
+			ctx, cancel := context.WithTimeout(context.Background(), 10*time.Second)
+			defer cancel()
+			g, _ := hrpc.NewGet(ctx, []byte("t"), []byte(keys[i]+"x"))
+			sc.cl.Get(g)
+		}(i)
+	}
+	close(start)
+	wg.Wait()
+	g1, _ := hrpc.NewGet(context.Background(), []byte("t"), []byte(keys[n]+"x"))
+	sc.cl.Get(g1)
+	settle()
+	cache := sc.v.ConnCacheAddrs()
+	sort.Strings(cache)
+	var ci []string
+	for _, a := range cache {
+		ci = append(ci, fmt.Sprint(addrIdx(a)))
+	}
+	return fmt.Sprintf("c20 seq E:firstuse%d K:%s:%s F:0", n, c.connInfo(), strings.Join(ci, ","))
 }
 
 // FATALMARK is translated by the sim into the fatal exception; keep excClass in sync.
@@ -715,6 +765,9 @@ func init() {
 		runSharded("C20", tier, seed, out, 16, func(shard, nsh int, emit func(string)) {
 			for i := shard; i < n; i += nsh {
 				emit(seqScenario(NewRNG(seed, fmt.Sprintf("c20-%d", i)), "c20"))
+			}
+			for i := shard; i < n/2; i += nsh {
+				emit(firstUseScenario(NewRNG(seed, fmt.Sprintf("c20f-%d", i))))
 			}
 		})
 	}
